@@ -193,6 +193,14 @@ func (p *Proxy) gate(ctx context.Context, op string) {
 	}
 }
 
+func (p *Proxy) trace(ctx context.Context, op string) {
+	if p.TraceOps {
+		p.mu.Lock()
+		p.ops = append(p.ops, Actor(ctx)+":"+op)
+		p.mu.Unlock()
+	}
+}
+
 // Len is the current log length.
 func (p *Proxy) Len() int { p.mu.Lock(); defer p.mu.Unlock(); return len(p.log) }
 
@@ -457,7 +465,9 @@ func forward[T any](p *Proxy, ctx context.Context, in <-chan T, out chan<- T, mk
 
 // Watch implements state.CoreState.
 func (p *Proxy) Watch(ctx context.Context, ptr resource.Pointer, ch chan<- state.Event, opts ...state.WatchOption) error {
-	p.gate(ctx, "watch")
+	// no gate here: callers (the controller runtime) establish watches while holding mutexes, and a virtual sleep under a
+	// mutex another goroutine waits for would freeze the synctest clock (mutex waits are not durable blocks)
+	p.trace(ctx, "watch")
 
 	in := make(chan state.Event)
 	lo := p.Len()
@@ -479,7 +489,9 @@ func (p *Proxy) Watch(ctx context.Context, ptr resource.Pointer, ch chan<- state
 
 // WatchKind implements state.CoreState.
 func (p *Proxy) WatchKind(ctx context.Context, kind resource.Kind, ch chan<- state.Event, opts ...state.WatchKindOption) error {
-	p.gate(ctx, "watchkind")
+	// no gate here: callers (the controller runtime) establish watches while holding mutexes, and a virtual sleep under a
+	// mutex another goroutine waits for would freeze the synctest clock (mutex waits are not durable blocks)
+	p.trace(ctx, "watchkind")
 
 	in := make(chan state.Event)
 	lo := p.Len()
@@ -501,7 +513,9 @@ func (p *Proxy) WatchKind(ctx context.Context, kind resource.Kind, ch chan<- sta
 
 // WatchKindAggregated implements state.CoreState.
 func (p *Proxy) WatchKindAggregated(ctx context.Context, kind resource.Kind, ch chan<- []state.Event, opts ...state.WatchKindOption) error {
-	p.gate(ctx, "watchagg")
+	// no gate here: callers (the controller runtime) establish watches while holding mutexes, and a virtual sleep under a
+	// mutex another goroutine waits for would freeze the synctest clock (mutex waits are not durable blocks)
+	p.trace(ctx, "watchagg")
 
 	in := make(chan []state.Event)
 	lo := p.Len()
